@@ -366,7 +366,7 @@ theorem closer_colon (r : List Char) : Closer (':' :: r) :=
 theorem closer_gt (r : List Char) : Closer ('>' :: r) :=
   ⟨headNot_cons (by decide), headNot_cons (by decide), headNot_cons (by decide)⟩
 
-theorem lex_render_aux (s : DSymSpec) (h : Printed s) (trail : List Char) (ht : HeadNot isWs trail) :
+theorem lex_render_aux (s : DSymSpec) (h : Printed s) (trail : List Char) :
     lex (render s ++ trail) = some s := by
   obtain ⟨setCount, symCount, size, dim, opSpec, mSpec⟩ := s
   have hops : HeadNot isWs (renderLists opSpec ++ (':' :: (renderLists mSpec ++ ('>' :: trail)))) := by
@@ -417,7 +417,11 @@ theorem lex_render_aux (s : DSymSpec) (h : Printed s) (trail : List Char) (ht : 
     simp only
     rw [intLists_render mSpec _ h.m_ne h.ms (closer_gt _)]
     simp only
-    rw [punct_render '>' _ (by decide) ht]
+    have hlast : punct '>' ('>' :: trail) = some (ws0 trail) := by
+      unfold punct
+      rw [ws0_of_headNot (headNot_cons (by decide))]
+      simp [chr]
+    rw [hlast]
   unfold render fmtHead
   dsimp only
   by_cases hd2 : dim = 2
